@@ -332,7 +332,7 @@ class C06(Prop):
         "ops are paired only with operand kinds they are defined for (DESIGN.md C06 S)",
         "bounded-integer typing rule of the framework is the tight range; funsor may declare more, never less",
     )
-    cases = {"quick": 2400, "thorough": 80000}
+    cases = {"quick": 4000, "thorough": 80000}
 
     known_predicates = {
         "floordiv-bint-bound": lambda case, v: ("floordiv" in str(v.message)) and ("range" in v.bucket or "output" in v.bucket or "int-bound" in v.bucket),
